@@ -18,7 +18,7 @@
    Positions flowing through the algorithm are [Z] because raw (possibly negative or
    out-of-range) first-stage integers are stored in the lookup unchecked, exactly as in the code. *)
 From Coq Require Import ZArith List Bool.
-From KV Require Import Base.Sx Base.PySlice Base.AxisIndex Base.NdArray Gen.Generated.
+From KV Require Import Base.Sx Base.PySlice Base.AxisIndex Base.NdArray Base.LazyDType Gen.Generated.
 Import ListNotations.
 Open Scope Z_scope.
 
@@ -46,9 +46,12 @@ Definition init_len (n : Z) (lk : lookup) : Z := match lk with None => n | Some 
 (* ---------------------------------------------------------------- transforms *)
 
 (* A LazyTransform as far as the property sees it: what it does to the data, its declared
-   new_shape and its declared dtype.  [TMap a b dt]: elementwise x -> a*x+b, shape kept,
-   dtype [dt] (None = unchanged).  [TDrop]: data[..., 0], new_shape = shape[:-1].
-   [TAdd]: data[..., np.newaxis], new_shape = shape + (1,). *)
+   new_shape and its declared dtype.  [TMap a b dt]: elementwise x -> (a*x+b).astype(dt), shape kept,
+   dtype [dt] (None = the dtype of the data).  [TDrop]: data[..., 0], new_shape = shape[:-1].
+   [TAdd]: data[..., np.newaxis], new_shape = shape + (1,).
+   Dtypes are the codes of Base/LazyDType.v, elements are encoded as there: a*x+b is computed in the dtype of
+   the data (int64 for bool data, numpy's rule for bool * int) and then cast ([cast_val]); byte strings have
+   no arithmetic (numpy raises). *)
 Inductive tr := TMap (a b : Z) (dt : option Z) | TDrop | TAdd.
 
 Definition tr_new_shape (t : tr) (shape : list Z) : list Z :=
@@ -61,7 +64,11 @@ Record arr := mk_arr { a_dtype : Z; a_nd : nd }.
 Definition tr_apply (t : tr) (x : arr) : res arr :=
   let sh := nd_shape (a_nd x) in let body := nd_body (a_nd x) in
   match t with
-  | TMap a b dt => Ok (mk_arr (tr_dtype t (a_dtype x)) (mk_nd sh (tree_map (fun v => a * v + b) body)))
+  | TMap a b dt =>
+      let d0 := a_dtype x in
+      if is_bytes d0 then Err
+      else Ok (mk_arr (tr_dtype t d0)
+                      (mk_nd sh (tree_map (fun v => cast_val (if d0 =? 3 then 0 else d0) (tr_dtype t d0) (a * v + b)) body)))
   | TDrop => match rev sh with
              | [] => Err                                   (* 0-d data has no last axis *)
              | d :: _ => if d <=? 0 then Err               (* index 0 out of bounds *)
@@ -271,13 +278,13 @@ Definition of_arr (r : res arr) : sx :=
   end.
 Definition of_shape (r : res (list Z)) : sx := match r with Ok s => L [I 1; of_Zs s] | Err => L [I 0] end.
 
-(* (shape k1 ts dt k2) -> (model spec shape-property dtype-property), dataset = arange shape *)
+(* (shape k1 ts dt k2) -> (model spec shape-property dtype-property), dataset = elements of dtype dt labelled in C order *)
 Definition wire_5 (x : sx) : sx :=
   match x with
   | L [shape; k1; ts; I dt; k2] =>
       let shape := to_Zs shape in let k1 := map to_aidx (to_list k1) in
       let ts := map to_tr (to_list ts) in let k2 := map to_aidx (to_list k2) in
-      let ds := arange shape 0 in
+      let ds := tree_map (enc_val dt) (arange shape 0) in
       let spec := of_arr (spec_getitem shape ds k1 ts dt k2) in
       match mk_lazy shape k1 ts dt with
       | Err => L [L [I 0]; spec; L [I 0]; I 0]
